@@ -32,6 +32,8 @@ pub enum Cmd {
     Exit(Option<u32>),
     SetE(bool),
     SetM(bool),
+    /// no command name: (status of the last command substitution in the words, in the assignments)
+    Absent(Option<u32>, Option<u32>),
     Call(&'static str),
     Unknown,
     Tick(u32, u32),
@@ -107,6 +109,10 @@ fn sx_cmd(c: &Cmd) -> String {
         Cmd::Exit(Some(n)) => format!("(exit {n})"),
         Cmd::SetE(b) => format!("(sete {})", *b as u8),
         Cmd::SetM(b) => format!("(setm {})", *b as u8),
+        Cmd::Absent(w, a) => {
+            let f = |x: &Option<u32>| x.map_or("-".to_string(), |n| n.to_string());
+            format!("(abs {} {})", f(w), f(a))
+        }
         Cmd::Call(n) => format!("(call {})", sx_name(n)),
         Cmd::Unknown => "(unk)".into(),
         Cmd::Tick(c, k) => format!("(tick {c} {k})"),
@@ -279,6 +285,12 @@ fn to_cmd(x: &Sx) -> Option<Cmd> {
         ("exit", 2) => Cmd::Exit(Some(num(&v[1])?)),
         ("sete", 2) => Cmd::SetE(num(&v[1])? != 0),
         ("setm", 2) => Cmd::SetM(num(&v[1])? != 0),
+        ("abs", 3) => {
+            let f = |x: &Sx| -> Option<Option<u32>> {
+                if atom(x)? == "-" { Some(None) } else { Some(Some(num(x)?)) }
+            };
+            Cmd::Absent(f(&v[1])?, f(&v[2])?)
+        }
         ("call", 2) => Cmd::Call(name(&v[1])?),
         ("unk", 1) => Cmd::Unknown,
         ("tick", 3) => Cmd::Tick(num(&v[1])?, num(&v[2])?),
@@ -461,6 +473,33 @@ impl Render {
             Cmd::Exit(Some(n)) => self.simple(&["exit".into(), n.to_string()]),
             Cmd::SetE(true) => self.simple(&["set".into(), "-e".into()]),
             Cmd::SetE(false) => self.simple(&["set".into(), "+e".into()]),
+            Cmd::Absent(w, a) => {
+                // assignments first, then words that expand to no field; plain ones may be mixed in
+                let mut parts: Vec<String> = vec![];
+                match a {
+                    Some(n) => {
+                        if self.rng.chance(1, 3) {
+                            parts.push(format!("av=$(st {})", self.rng.below(4)));
+                        }
+                        parts.push(format!("av2=x$(st {n})"));
+                        if self.rng.chance(1, 3) {
+                            parts.push("av3=plain".into());
+                        }
+                    }
+                    None if w.is_none() || self.rng.chance(1, 2) => parts.push("av=plain".into()),
+                    None => {}
+                }
+                if let Some(n) = w {
+                    if self.rng.chance(1, 3) {
+                        parts.push(format!("$(st {})", self.rng.below(4)));
+                    }
+                    parts.push(format!("$(st {n})"));
+                    if self.rng.chance(1, 3) {
+                        parts.push("$unset_e".into());
+                    }
+                }
+                self.out.push_str(&parts.join(" "));
+            }
             Cmd::SetM(on) => {
                 let w: &[&str] = match (*on, self.rng.below(2)) {
                     (true, 0) => &["set", "-m"],
@@ -608,7 +647,19 @@ impl Render {
                     w.push("command".into());
                 }
                 if *st == 2 {
-                    w.extend(["set".into(), "-o".into(), "no_such_option".into()]);
+                    // syntax errors of special built-ins: all status 2
+                    let e: &[&str] = *self.rng.pick(&[
+                        &["set", "-o", "no_such_option"][..],
+                        &["return", "1", "2"][..],
+                        &["return", "x"][..],
+                        &["exit", "1", "2"][..],
+                        &["exit", "x"][..],
+                        &["break", "1", "2"][..],
+                        &["break", "0"][..],
+                        &["continue", "x"][..],
+                        &["continue", "0"][..],
+                    ]);
+                    w.extend(e.iter().map(|s| s.to_string()));
                 } else {
                     w.extend(["shift".into(), "99".into()]);
                 }
@@ -753,7 +804,13 @@ impl Gen {
                     Cmd::Call(NAMES[self.rng.below(self.call_limit.min(CALLABLE))])
                 }
             }
-            85..=87 => Cmd::Unknown,
+            85..=86 => Cmd::Unknown,
+            87 => {
+                let o = |g: &mut Gen| if g.rng.chance(1, 2) { Some(g.rng.below(4) as u32) } else { None };
+                let w = o(self);
+                let a = o(self);
+                Cmd::Absent(w, a)
+            }
             88..=89 => Cmd::SetE(self.rng.chance(1, 2)),
             90 => Cmd::SetM(self.rng.chance(2, 3)),
             _ => {
